@@ -127,6 +127,7 @@ CHECKS = {
     },
     "C14": {
         "legs": legs_simple("props", "^TestC14$", 14, 16),
+        "needs_cli": True,
         "rule": "enumerated: status values -3..12, the eight labels, WriteJSON of the global registry; rapid: result sets from generated objects (biased to names with invalid UTF-8, "
                 "quotes, <>&, NUL so details carry them), synthetic results with arbitrary details bytes x each status, arbitrary label strings, WriteJSON of generated filtered "
                 "registries. Oracle: Unmarshal(Marshal(x)) reproduces keys, status, details (invalid bytes -> U+FFFD), flags, version, timestamp; labels distinct/stable; unknown labels "
